@@ -205,6 +205,14 @@ class Report:
         except AnalysisError as e:
             self.errors.append(str(e))
             return None
+        except RecursionError as e:
+            self.errors.append("internal: recursion limit in %s" % getattr(fn, "__name__", "rule"))
+            return None
+        except Exception as e:   # an unexpected shape of the code under analysis must never look like a verdict
+            import traceback
+            tb = traceback.extract_tb(e.__traceback__)[-1]
+            self.errors.append("internal: %s: %r at %s:%d" % (getattr(fn, "__name__", "rule"), e, os.path.basename(tb.filename), tb.lineno))
+            return None
 
     def instance(self, rule, construct, where, ok=True, note=""):
         self.instances.append({"rule": rule, "construct": construct, "where": where, "verdict": "ok" if ok else "VIOLATED", "note": note})
